@@ -834,6 +834,27 @@ def r19_vec_elem_type(src, ctx):
             ctx.log.append(('R19', m.group(0), 'Vec<' + pm.group(1) + '>'))
     return out
 
+def r20_then_with(src, ctx):
+    """R20: `A.then_with(|| B)` -> its std definition `match A { Equal => B, o => o }` (laziness preserved); an unannotated closure has no usable
+    specification in Verus."""
+    while True:
+        ct = _ct(src)
+        hit = False
+        for i in range(len(ct) - 2):
+            if ct[i].t == '.' and ct[i + 1].t == 'then_with' and ct[i + 2].t == '(':
+                c = match_close(ct, i + 2)
+                cp = closure_parts(src, ct, i + 2, c)
+                if cp is None or cp[0] != '': raise Unsupported('then_with argument is not a `|| expr` closure')
+                r0 = recv_start(ct, i - 1)
+                recv = src[ct[r0].s:ct[i].s].strip()
+                ov = ctx.fresh('o')
+                new = f'(match {recv} {{ core::cmp::Ordering::Equal => {{ {cp[1]} }}, {ov} => {ov} }})'
+                ctx.log.append(('R20', re.sub(r'\s+', ' ', src[ct[r0].s:ct[c].e]), new))
+                src = src[:ct[r0].s] + new + src[ct[c].e:]
+                hit = True
+                break
+        if not hit: return src
+
 def apply_all(src, ctx):
     src = r0_strip(src, ctx)
     src = r17_range_inclusive(src, ctx)
@@ -844,6 +865,7 @@ def apply_all(src, ctx):
     src = r5_let_chain(src, ctx)
     src = r8_sort(src, ctx)
     src = r9_option(src, ctx)
+    src = r20_then_with(src, ctx)
     src = r9c_and_modify(src, ctx)
     src = r9b_or_insert_with(src, ctx)
     src = r11_into_values(src, ctx)
